@@ -133,3 +133,14 @@ Example depth1_traversal :
   stream_query OpSelect (Name "ds") (Lambda ["e"] q) (callback_sites W3 [("e", TCls "Event" [])] q) =
     Call (Name "Select") [Call (Name "MetaData") [Call (Name "MetaData") [Name "ds"; md "c"] [] []; md "m"] [] []; Lambda ["e"] q] [] [].
 Proof. split; vm_compute; reflexivity. Qed.
+
+(* an immediately called lambda (F45): its body is followed with the parameter typed by the argument, so the class and
+   method callbacks of the call site inside it fire, and the rewrite is emitted inside the lambda *)
+Example called_lambda_sites_followed :
+  let xpt := Call (Attr (Name "x") "pt") [] [] [] in
+  follow W3 [("j", TCls "Jet" [])] (Call (Lambda ["x"] xpt) [Name "j"] [] []) =
+    Ok (Call (Lambda ["x"] (Call (Attr (Name "x") "pt_new") [] [] [])) [Name "j"] [] [], TFloat,
+        [EvCall "jetcls" xpt; EvMeta (md "c"); EvCall "jetpt" xpt; EvMeta (md "m")]) /\
+  callback_sites W3 [("j", TCls "Jet" [])] (Call (Lambda ["x"] xpt) [Name "j"] [] []) =
+    [EvCall "jetcls" xpt; EvMeta (md "c"); EvCall "jetpt" xpt; EvMeta (md "m")].
+Proof. split; vm_compute; reflexivity. Qed.
